@@ -245,11 +245,12 @@ def run(ctx):
     ctx.extra['exhaustive_subspace'] = 'truncation offsets 0..len-1 of every generated file'
     ctx.assume('a crash leaves a byte prefix of the file' + (' (supported by the strace observation of the thorough tier: only sequential write()s on the output fd, no seek/truncate/rename)' if not ctx.quick else ' (append-only writing is observed by the strace run of the thorough tier, not in this tier)'),
                'the end offset of every record is observed at the writing boundary (position of the output handle after each FitInfoFile.write), so nothing is assumed about the on-disk layout', 'a clean end after fewer records than were complete is an exact prefix and is accepted')
-    ctx.require_events('truncated-read', 'outcome:exception', 'outcome:clean-end', 'enospc-run', 'enospc:prefix-on-disk', 'FitInfoFile.write:post')
+    ctx.require_events('truncated-read:after-another-file-of-the-same-length-under-the-same-name', 'truncated-read', 'outcome:exception', 'outcome:clean-end', 'enospc-run', 'enospc:prefix-on-disk', 'FitInfoFile.write:post')
     ctx.require_regimes('with-fluxes', 'without-fluxes', 'records=1', 'records>=3', 'cut:before-first-record-complete', 'cut:in-later-record', 'cut:on-boundary',
                         'records:large', 'records:thousands-of-fits', 'records:equal-size', 'enospc:over-an-existing-longer-file', 'enospc:over-another-longer-file', 'enospc:over-an-earlier-run-of-the-same-job')
     n_files = 8 if ctx.quick else 64
     prev_blob = None
+    prev_pack = None
     for ifile in range(n_files):
         n_rec = [1, 3, 2, 4][ifile % 4]
         with_fluxes = bool((ifile // 4) % 2)          # every record count with and without stored fluxes
@@ -298,10 +299,29 @@ def run(ctx):
             near.update(range(0, size, max(1, size // 4000)))
             offsets = sorted(near, reverse=True)
             ctx.extra['exhaustive_subspace'] = 'truncation offsets 0..len-1 of every generated file up to 20 kB; larger files: all offsets within 96 bytes of a record end, within 2 bytes of the end of every write() call of the writer, + a stride'
+        cur_blob = open(path, 'rb').read()
+        twin_at = set()
+        if prev_pack is not None:
+            for e in list(prev_pack[2]) + list(rec_ends):
+                twin_at.update((e - 1, e, e + 1))
+            twin_at.update(range(0, size, 53))
+            twin_at = set(t_ for t_ in twin_at if 0 <= t_ < min(size, len(prev_pack[0])))
         for t in offsets:
             os.truncate(work, t)
             if not ctx.mine(t):
                 continue
+            if t in twin_at:
+                # the same name held, a moment ago, another results file cut to the very same length (an earlier run that died at
+                # the same point): each is read right after the other, and each read must answer for the file that is there
+                pb, pfull, pends = prev_pack
+                with open(work, 'wb') as fo_:
+                    fo_.write(pb[:t])
+                gp, ep = read_truncated(work)
+                judge(ctx, gp, ep, pfull, sum(1 for e in pends if e <= t),
+                      dict(wit0, offset=t, twin='the previous file, cut to the same length, under the same name'), 'truncated:same-name-earlier-file')
+                with open(work, 'wb') as fo_:
+                    fo_.write(cur_blob[:t])
+                ctx.event('truncated-read:after-another-file-of-the-same-length-under-the-same-name')
             n_complete = sum(1 for e in rec_ends if e <= t)
             got, exc = read_truncated(work)
             ctx.event('truncated-read')
@@ -436,6 +456,7 @@ def run(ctx):
             if os.path.exists(out2):
                 os.remove(out2)
         prev_blob = open(path, 'rb').read()
+        prev_pack = (prev_blob, full, list(rec_ends))
         ctx.rmdir(d)
 
     if not ctx.quick:
